@@ -32,7 +32,7 @@ def gen_cases(tier, seed):
         for j in range(k):
             kind = r.choice(["fifo", "sock", "chr", "chr", "chr"] + (["blk"] if r.random() < 0.15 else []))
             p = ("node%d" % j) if sole else r.choice(["src/node%d" % j, "src/sub/node%d" % j])
-            e = {"p": p, "k": kind, "mode": r.choice([0o644, 0o600, 0o666, 0o777, 0o000, 0o640, 0o444, 0o622, r.randrange(0o1000)])}
+            e = {"p": p, "k": kind, "mode": r.choice([0o644, 0o600, 0o666, 0o777, 0o000, 0o640, 0o444, 0o622, r.randrange(0o1000), 0o1666, 0o2664, 0o4755, 0o7777])}
             if kind in ("chr", "blk"):
                 e["rdev"] = list(r.choice(DEVS))
             hasblk |= kind == "blk"
